@@ -196,7 +196,10 @@ def check_C18(rep, fl):
     props_store.check_store_writes(rep, fl)
     check_conflict_plumbing(rep, fl)
     props_cache.check_C16_keys(rep, fl)
-    props_life.check_handle_item_pairing(rep, fl, rule="R18.4")
+    # the pairings that carry or ignore the conflict hash (what happens to the policy's victims is not a collision matter)
+    props_life.check_handle_item_pairing(rep, fl, rule="R18.4", only_sites=(
+        "try_insert only if added", "Delete => policy.remove + store.try_remove",
+        "Delete: un-charge conditional on conflict-checked removal", "New: re-charge of an existing index without conflict check"))
     props_life.check_remove_pair(rep, fl)
 
 
